@@ -148,6 +148,17 @@ def gen_op(ck: Check, pool: dict[str, Any]) -> dict[str, Any]:
         return {"op": "hdrdet", "hdr": hdr, "det": det, "data": data.hex(), "hdr_fields": ["H-TYPE", "H-COUNT"], "det_fields": ["D-NAME", "D-AMT"],
                 "keep": rng.random() < 0.3,
                 "_want": {"header": [repr("H"), f"Decimal('{nd}')"], "details": [[repr(nm), f"Decimal('{a}')"] for nm, a in zip(names, amts)]}}
+    if 0.73 <= r < 0.75:
+        ck.histogram["op/rebind"] += 1
+        kw, nw, n = rng.randint(1, 6), rng.randint(1, 5), rng.randint(1, 5)
+        hw = rng.choice([x for x in range(2, 14) if x != kw + nw])
+        first = f"       01  HDR.\n           05  H-ALL PIC X({hw}).\n"
+        second = f"       01  DET.\n           05  D-KEY     PIC X({kw}).\n           05  D-NUM     PIC 9({nw}).\n"
+        keys = ["".join(rng.choice("ABCDEFGHJKLMNP") for _ in range(kw)) for _ in range(n)]
+        nums = [rng.randint(0, 10 ** nw - 1) for _ in range(n)]
+        data = b"".join((k + str(v).zfill(nw)).encode("cp037") for k, v in zip(keys, nums))
+        return {"op": "rebind", "first": first, "second": second, "data": data.hex(), "fields": ["D-KEY", "D-NUM"], "max_rows": n + 3,
+                "_want": [[repr(k), f"Decimal('{v}')"] for k, v in zip(keys, nums)]}
     if 0.70 <= r < 0.73:
         ck.histogram["op/twofiles"] += 1
         files = []
@@ -244,6 +255,13 @@ def explore(ck: Check, n_hist: int, max_len: int) -> None:
                         ck.fail("history-dependent:rebuild", f"one parse of a copybook, JSON Schema built from it repeatedly: the {which} build differs "
                                 + (f"from the schema of a fresh parse ({str(res.get(which))[:100]} vs {str(res.get('fresh'))[:100]})" if which != "extended"
                                    else "vocabulary build gives two different documents for the same parse"), {"op": public(o)})
+                if o["op"] == "rebind":
+                    ck.oracle_evaluations += 1
+                    for how in ("same-sheet", "second-sheet"):
+                        if res.get(how) != o["_want"]:
+                            ck.fail("history-dependent:rebind", f"a file of fixed-length records bound to one layout and then, before any row is taken, "
+                                                                f"to another ({how}): rows {str(res.get(how))[:100]}; written {str(o['_want'])[:100]}", {"op": public(o)})
+                            break
                 if o["op"] == "twofiles":
                     ck.oracle_evaluations += 1
                     if res.get("rows") != o["_want"] or res.get("error"):
